@@ -1,12 +1,12 @@
 import MiniconfVerif.Props.C08
-import MiniconfVerif.Lemmas.PackedPath
+import MiniconfVerif.Lemmas.PackedOrder
 
-/-! # C09 — packed node keys are unique, decode to their node, bounded by max_bits
+/-! # C09 — packed node keys are unique, ordered like iteration, decode to their node, bounded by max_bits
 
 Model: the `Transcode for Packed` callback and `Keys for Packed` (`Model/Transcode.lean`,
 `Model/Keys.lean`) over the single-word functions regenerated from packed.rs; the path-level
 statements are built on C08's `pushAll`/`popAll` theorems (Lemmas/PackedPath.lean).
-The order statement (numeric order = iteration order) is checked by the runs only. -/
+-/
 namespace MiniconfVerif.C09
 open MiniconfVerif MiniconfVerif.Gen.Packed MiniconfVerif.PackedWord MiniconfVerif.Packed
 
@@ -139,6 +139,30 @@ theorem bounded (s : Schema) (hwf : s.WF) :
   refine ⟨fun p t ht => node_bits_le_max s t hwf p ht, ?_⟩
   rw [meta_bits]
   exact pathW_attained Wbits s.maxDepth s (Nat.le_refl _) hwf
+
+/-- **The numeric order of the packed keys of the leaves is their iteration order**: the leaves
+are listed in strictly increasing lexicographic order of their index paths, and of two diverging
+node paths the lexicographically smaller has the numerically smaller packed key; hence the packed
+keys of `s.leaves`, in that order, are strictly increasing. -/
+theorem order (s : Schema) (hwf : s.WF) (hsm : s.Small) (hmax : s.meta.maxBits ≤ 63) :
+    (s.leaves.map (packOf s)).Pairwise (fun a b => ∃ w w', a = some w ∧ b = some w' ∧ w < w') := by
+  rw [List.pairwise_map]
+  refine (leaves_pairwise s.maxDepth s (Nat.le_refl _)).imp_of_mem ?_
+  intro p p' hp hp' hlex
+  have ht := mem_leaves_at? p s hp
+  have ht' := mem_leaves_at? p' s hp'
+  have hfit : pathW Wbits s p ≤ 63 := Nat.le_trans (node_bits_le_max s _ hwf p ht) hmax
+  have hfit' : pathW Wbits s p' ≤ 63 := Nat.le_trans (node_bits_le_max s _ hwf p' ht') hmax
+  obtain ⟨w, hw, _, _⟩ := encode s _ hwf hsm p ht hfit
+  obtain ⟨w', hw', _, _⟩ := encode s _ hwf hsm p' ht' hfit'
+  refine ⟨w, w', hw, hw', ?_⟩
+  have hV0 : Valid 0 0 := by constructor <;> decide
+  have htb := totalBits_eq_pathW p s _ hwf ht
+  have htb' := totalBits_eq_pathW p' s _ hwf ht'
+  simp only [packOf] at hw hw'
+  rw [empty_repr] at hw hw'
+  exact pack_lt p p' s _ _ 0 0 w w' hwf hsm ht ht' hV0 hlex (by rw [htb]; simpa using hfit)
+    (by rw [htb']; simpa using hfit') hw hw'
 
 /-- two types agree on the field width at every node of `s` that also exists in `s'`
 (e.g. `s'` is `s` with children appended to some nodes without crossing a power of two) -/
